@@ -119,6 +119,14 @@ func TestVWalOpenCorruption(t *testing.T) {
 		if err != nil {
 			t.Fatalf("open: %v", err)
 		}
+		// the very first WAL of a new store is created before the format version is
+		// known; reopen so that the WAL under test is created in the WAL-sync format
+		if err := d.Close(); err != nil {
+			t.Fatalf("close: %v", err)
+		}
+		if d, err = pebble.Open("db", mkOpts(fs)); err != nil {
+			t.Fatalf("open: %v", err)
+		}
 		n := 6 + rng.IntN(10)
 		for i := 1; i <= n; i++ {
 			var sz int
